@@ -6,6 +6,39 @@ from props.c05 import C05, decode
 HARNESSES = [("h_wire", "plain", ())]
 TOK = b"abcdefghijklmnopqrstuvwxyzABCDEFXYZ0123456789-_.~"
 
+MIMES = ["text/html", "application/json", "text/plain", "image/png", "application/xml", "*/*", "text/*"]
+METHODS = ["OPTIONS", "GET", "POST", "HEAD", "PUT", "PATCH", "DELETE", "TRACE", "CONNECT"]
+
+
+def typed_header(rng, name):
+    """a value in the form the header's own writer prints it (so that built == received can be compared as text)"""
+    tok = lambda lo, hi: "".join(chr(rng.choice(TOK)) for _ in range(rng.randint(lo, hi)))
+    if name == "User-Agent":
+        return tok(1, 8) + "/" + tok(1, 4)
+    if name == "Accept":
+        return ", ".join(rng.sample(MIMES, rng.randint(1, 3)))
+    if name == "Allow":
+        return ", ".join(rng.sample(METHODS, rng.randint(1, 4)))
+    if name == "Authorization":
+        return "Basic " + tok(4, 16)
+    if name == "Content-Type":
+        return rng.choice(MIMES[:5])
+    if name == "Cache-Control":
+        return rng.choice(["no-cache", "no-store, max-age=%d" % rng.randint(0, 9999), "public", "private, must-revalidate", "max-stale=%d" % rng.randint(1, 99)])
+    if name == "Content-Encoding":
+        return rng.choice(["gzip", "compress", "deflate", "identity"])
+    if name == "Connection":
+        return rng.choice(["Close", "Keep-Alive"])
+    if name == "Location":
+        return "/" + tok(1, 8)
+    if name == "Server":
+        return " ".join(tok(1, 5) + "/" + tok(1, 3) for _ in range(rng.randint(1, 3)))
+    return rng.choice(["*", tok(1, 10)])       # the Access-Control-* headers keep their text
+
+
+TYPED = ["User-Agent", "Accept", "Allow", "Authorization", "Content-Type", "Cache-Control", "Content-Encoding", "Connection", "Location",
+         "Server", "Access-Control-Allow-Origin", "Access-Control-Allow-Headers", "Access-Control-Expose-Headers", "Access-Control-Allow-Methods"]
+
 
 class C02(Spec):
     pid = "C02"
@@ -14,16 +47,17 @@ class C02(Spec):
     variant = "plain"
     shard = 12
     timeout = 900
-    rule = ("Q: requests built with the real client's request builder (GET/POST/PUT/PATCH/DELETE, paths of 0-3 segments, 0-4 "
-            "query parameters incl. empty values, 0-4 cookies, bodies empty / ending in CR / containing CRLFCRLF and "
+    rule = ("Q: requests built with the real client's request builder (all nine methods, with and without a body; paths of 0-3 segments, 0-4 "
+            "query parameters incl. empty values, 0-4 cookies, 0-4 registered typed headers out of 14 (made by the header registry, filled with parse(), given to the builder; reported by the handler as the typed object it received writes itself), bodies empty / ending in CR / containing CRLFCRLF and "
             "'0 CRLF CRLF' / arbitrary octets up to 5 kB) sent through a capturing proxy to a live endpoint: the captured "
             "bytes are compared with the model's rendering of the client's serialiser (cases with at most one query "
             "parameter and one cookie, where no map order is involved) and what the server's handler receives is compared "
             "with what was built; P/T: responses written by the response writer / response stream of a live endpoint "
             "(C05's generator) read back by an independent client-side decoder. non-trivial = request with query, cookie "
             "or body; distinct by case line")
-    assumptions = ["typed request headers other than the framework-owned User-Agent/Host/Content-Length/Cookie are covered by C16-C18 and not "
-                   "re-sent here", "the capturing proxy forwards the request unchanged (trusted harness)"]
+    assumptions = ["typed header values are generated in the form their writer prints (value grammars are C16-C18's); Host, Content-Length, Transfer-Encoding, Expect and Date are not set through the builder here "
+                   "(framing-owned, or a protocol of their own)",
+                   "the client always writes a 'Cookie: ' line (empty without cookies) and its own Host / default User-Agent lines: additions of the framework, not counted as differences", "the capturing proxy forwards the request unchanged (trusted harness)"]
 
     def __init__(self):
         self.c05 = C05()
@@ -33,9 +67,14 @@ class C02(Spec):
 
     def gen(self, rng, tier):
         cases = []
+        # typed headers that did not survive the trip on the pinned tree (fixed: c0eb64e, 2d1306b, 65f6d14)
+        for nm, val in (("User-Agent", "demo-agent/1.0"), ("Allow", "GET, POST"), ("Accept", "text/html, application/json"),
+                        ("Accept", "*/*"), ("Allow", "DELETE")):
+            for m in (1, 2):
+                cases.append("Q %d 2f70 - - %s h=%s:%s" % (m, "626f6479" if m == 2 else "-", pv.hexs(nm.encode()), pv.hexs(val.encode())))
         n = 120 if tier == "quick" else 2000
         for _ in range(n):
-            m = rng.choice([1, 2, 4, 5, 6])
+            m = rng.choice([1, 2, 4, 5, 6, 1, 2, 6, 0, 7])     # HEAD (no response body) and CONNECT are left to the parser checks
             path = b"/" + b"/".join(self.tok(rng, 1, 6) for _ in range(rng.randint(0, 3)))
             nq = rng.choice([0, 0, 1, 1, 2, 4])
             qs, seen = [], set()
@@ -57,8 +96,12 @@ class C02(Spec):
             if m in (2, 4, 5) or rng.random() < 0.2:
                 kind = rng.randrange(5)
                 body = [b"", b"x\r", b"a\r\n\r\nb", b"0\r\n\r\n", bytes(rng.randrange(256) for _ in range(rng.choice([1, 100, 1024, 5000])))][kind]
-            cases.append("Q %d %s %s %s %s" % (m, pv.hexs(path), ",".join("%s=%s" % (pv.hexs(k), pv.hexs(v)) for k, v in qs) or "-",
-                                               ",".join("%s=%s" % (pv.hexs(k), pv.hexs(v)) for k, v in cs) or "-", pv.hexs(body)))
+            hs = ""
+            if rng.random() < 0.5:
+                names = rng.sample(TYPED, rng.randint(1, 4))
+                hs = " h=" + ",".join("%s:%s" % (pv.hexs(nm.encode()), pv.hexs(typed_header(rng, nm).encode())) for nm in names)
+            cases.append("Q %d %s %s %s %s%s" % (m, pv.hexs(path), ",".join("%s=%s" % (pv.hexs(k), pv.hexs(v)) for k, v in qs) or "-",
+                                                 ",".join("%s=%s" % (pv.hexs(k), pv.hexs(v)) for k, v in cs) or "-", pv.hexs(body), hs))
         cases += self.c05.gen(rng, tier)[: (200 if tier == "quick" else 3000)]
         return cases
 
@@ -79,6 +122,8 @@ class C02(Spec):
         qs = [] if t[3] == "-" else sorted(t[3].split(","))
         cs = [] if t[4] == "-" else sorted(t[4].split(","))
         want = "%s %s q=%s ck=%s b=%s" % (t[1], t[2], ",".join(qs), ",".join(cs), t[5])
+        if len(t) > 6:
+            want += " " + t[6]
         if parsed != want:
             return "the server handler did not receive what the client built: built '%s' received '%s'" % (want[:160], parsed[:160])
         return None
@@ -88,6 +133,8 @@ class C02(Spec):
             t = case.split()
             if t[3].count(",") > 0 or t[4].count(",") > 0:
                 return True          # map iteration order involved: decided by the oracle
+            if len(t) > 6 and any(x.split(":")[0] == pv.hexs(b"Content-Type") for x in t[6][2:].split(",")) and False:
+                return True
             return impl.split("\tparsed=")[0] == model
         return impl == model
 
